@@ -1186,6 +1186,15 @@ def gen_c16(rng):
     if rng.random() < 0.6:
         hist.append(dict(op='hpfile', h=0, out=3))
         hist.append(chk(3, ['values', 'valid', 'nvalid', 'layout']))
+    if rng.random() < 0.4:
+        # HEALPix-format files of the map: explicit partial (healsparse's writer), implicit NEST / RING with one or
+        # several elements per row (written with astropy, as other HEALPix software writes them)
+        fmts = ['explicit']
+        if dt in FLT_DT:
+            fmts += ['implicit_nest', 'implicit_ring', 'implicit_ring']
+        hist.append(dict(op='rdeghp', h=0, outp=4, fmt=rng.choice(fmts), rows2d=rng.random() < 0.5, nside_out=None))
+        hist.append(dict(op='ifexists', h=4))
+        hist.append(chk(4, ['values', 'valid', 'nvalid', 'layout', 'cov']))
     if dt in FLT_DT or True:
         k = rng.randint(1, 6)
         lon = [rng.choice([0.0, 359.99, 45.0, 90.0, rng.uniform(0, 360)]) for _ in range(k)]
@@ -1482,6 +1491,16 @@ def gen_c19(rng):
         hist.append(dict(op='upd', h=1, form='pix', operation='replace', expect='ok', pixels=[pix[j] for j in order],
                          values=[rng.choice([0.5, 1.0, 2.0, 4.0]) for _ in order], single=False))
         hw = 1
+    if kind in ('float', 'int', 'int0') and rng.random() < 0.3:
+        # HEALPix-format input of the same map (explicit partial; implicit NEST / RING for default-sentinel floats)
+        fmts = ['explicit', 'explicit']
+        if kind == 'float' and mk.get('sentinel') is None:
+            fmts += ['implicit_nest', 'implicit_ring']
+        red_hp = rng.choice([r for r in reds if r != 'wmean'])
+        hist.append(dict(op='rdeghp', h=0, outp=12, fmt=rng.choice(fmts), rows2d=rng.random() < 0.5,
+                         nside_out=nside_out, reduction=red_hp))
+        hist.append(dict(op='ifexists', h=12))
+        hist.append(chk(12, ['values', 'valid', 'nvalid', 'cov']))
     pixels = None
     if rng.random() < 0.6:
         pixels = rng.sample(range(ncov), rng.randint(1, min(5, ncov)))
@@ -1545,6 +1564,26 @@ def gen_c20(rng):
     val = True if mk['dtype'] == 'b' else 1
     hist = [mk, dict(op='upd', h=0, form='pix', operation='replace', expect='ok', pixels=pix, values=val, single=True,
                      pyscalar=True)]
+    if shape != 'polar_lon0' and rng.random() < 0.35:
+        # a history before the draw: the count is queried (memoised), then the footprint changes through another
+        # path (range slice path, explicit pixels, clearing): the generators must draw from the footprint as it is now
+        hist.append(chk(0, ['nvalid']))
+        mode = rng.choice(['rng_add', 'rng_add', 'upd_add', 'clear'])
+        if mode == 'rng_add':
+            a = rng.randrange(npix)
+            b = min(npix, a + rng.randint(1, 40))
+            hist.append(dict(op='rng', h=0, operation='replace', thr=0, ranges=[(a, b)], value=val))
+        elif mode == 'upd_add':
+            extra = [p for p in rng.sample(range(npix), min(npix, 6)) if p not in pix] or [pix[0]]
+            hist.append(dict(op='upd', h=0, form='pix', operation='replace', expect='ok', pixels=extra, values=val,
+                             single=True, pyscalar=True))
+        elif len(pix) > 1:
+            drop = rng.sample(pix, rng.randint(1, len(pix) - 1))
+            if rng.random() < 0.5:
+                hist.append(dict(op='upd', h=0, form='pix', operation='replace', expect='ok', pixels=drop, values=None))
+            else:
+                a = min(drop)
+                hist.append(dict(op='rng', h=0, operation='replace', thr=0, ranges=[(a, a + 1)], value=None))
     kind = rng.choice(['fast', 'fast', 'slow'])
     n = rng.choice([0, 1, 17, 1000])
     st = dict(op='rand', h=0, kind=kind, n=n, seed=rng.randrange(2 ** 31), footprint=shape)
